@@ -12,7 +12,7 @@ class Prop:
     id = "C02"
     level = "exploration"
     engine = "VT"
-    quick_runs = 60000
+    quick_runs = 120000
     thorough_runs = 2000000
     rule = ("seeded pipelines (depth 1-4, 1-4 logged cold/hot/sync sources plus inner/trigger/sampler/duration pool sources) with "
             "terminating patterns emphasised; once the root recorder has its terminal and every window/group recorder has terminated, "
